@@ -20,11 +20,11 @@ from vlib import Ctx, bag, log, plain
 
 ID = "C01"
 LEVEL = "proof"
-MODULES = ["SqlframeModel.Props.C01"]
+MODULES = ["SqlframeModel.Codec.C01", "SqlframeModel.Props.C01"]
 GEN = ["Operations", "Methods", "Clauses"]
 SOURCES = ["SqlframeModel/Props/C01.lean", "SqlframeModel/Lemmas/C01.lean", "SqlframeModel/Impl/DataFrame.lean", "SqlframeModel/Impl/C01Scope.lean"]
 
-KINDS = ["where", "select", "withColumn", "withColumnRenamed", "drop", "distinct", "orderBy", "limit", "fillna"]
+KINDS = ["where", "select", "withColumn", "withColumnRenamed", "drop", "distinct", "orderBy", "limit", "fillna", "replace", "toDF", "dropna"]
 NEW_NAMES = ["u", "v", "w", "p", "q"]
 BIG = 50
 
@@ -106,10 +106,11 @@ def gen_step(rng: random.Random, kind: str, schema: t.Dict[str, str], st: t.Dict
         return {"k": "orderBy", "keys": keys}
     if kind == "limit":
         if st.get("total"):
-            n = rng.choice([0, 1, 2, 3, BIG])
+            n = rng.choice([0, 1, 2, 3, 4, 5, 7, 10, 12, BIG])
         else:
             n = rng.choice([0, BIG, BIG + 1])
         # a truncating limit keeps the prefix of a total order: still deterministic for a following limit
+        st["total"] = st.get("total", False)
         return {"k": "limit", "n": n}
     if kind == "fillna":
         ty = rng.choice(sorted(set(schema.values())))
@@ -118,6 +119,40 @@ def gen_step(rng: random.Random, kind: str, schema: t.Dict[str, str], st: t.Dict
             sub = rng.sample(sub, rng.randint(1, len(sub)))
         st["total"] = False
         return {"k": "fillna", "v": 7 if ty == "int" else "zz", "sub": sub}
+    if kind == "replace":
+        ty = rng.choice(sorted(set(schema.values())))
+        sub = [c for c in cols if schema[c] == ty]
+        if rng.random() < 0.5 and len(sub) > 1:
+            sub = rng.sample(sub, rng.randint(1, len(sub)))
+        st["total"] = False
+        if ty == "int":
+            return {"k": "replace", "old": rng.choice([0, 1, 2, 3]), "new": rng.choice([9, 0, -1]), "sub": sub}
+        return {"k": "replace", "old": rng.choice(["a", "b", ""]), "new": rng.choice(["q", "a"]), "sub": sub}
+    if kind == "toDF":
+        pool = [x for x in NEW_NAMES + ["c1", "c2", "c3", "c4", "c5", "c6"] if True]
+        rng.shuffle(pool)
+        if rng.random() < 0.4:
+            names = [c if rng.random() < 0.5 else pool.pop() for c in cols]
+            if len(set(names)) != len(names):
+                names = [pool.pop() for _ in cols]
+        else:
+            names = [pool.pop() for _ in cols]
+        items = [(n, schema[c]) for n, c in zip(names, cols)]
+        schema.clear()
+        schema.update(items)
+        st["total"] = False
+        return {"k": "toDF", "names": names}
+    if kind == "dropna":
+        if "num_nulls" in cols:
+            return None
+        sub = rng.sample(cols, rng.randint(1, len(cols)))
+        st["total"] = False
+        mode = rng.random()
+        if mode < 0.4:
+            return {"k": "dropna", "howAll": False, "thresh": None, "sub": sub}
+        if mode < 0.7:
+            return {"k": "dropna", "howAll": True, "thresh": None, "sub": sub}
+        return {"k": "dropna", "howAll": False, "thresh": rng.randint(1, len(sub)), "sub": sub}
     raise ValueError(kind)
 
 
@@ -126,7 +161,7 @@ def gen_program(rng: random.Random, kinds: t.Sequence[str]) -> t.Optional[dict]:
     if rng.random() < 0.3:
         schema = {"x": "int", "y": "int"}
     base_schema = dict(schema)
-    rows = X.gen_table(rng, schema)
+    rows = X.gen_table(rng, schema, max_rows=rng.choice([6, 6, 13]))
     st: t.Dict[str, t.Any] = {"total": False}
     steps = []
     for i, k in enumerate(kinds):
@@ -163,6 +198,12 @@ def step_to_lean(s: dict) -> t.Any:
         return {"limit": {"n": s["n"]}}
     if k == "fillna":
         return {"fillna": {"v": vlib.lval(s["v"]), "sub": s["sub"]}}
+    if k == "replace":
+        return {"replace": {"old": vlib.lval(s["old"]), "new": vlib.lval(s["new"]), "sub": s["sub"]}}
+    if k == "toDF":
+        return {"toDF": {"names": s["names"]}}
+    if k == "dropna":
+        return {"dropna": {"howAll": s["howAll"], "thresh": s["thresh"], "sub": s["sub"]}}
     raise ValueError(k)
 
 
@@ -197,6 +238,12 @@ def show_step(s: dict) -> str:
         return f"limit({s['n']})"
     if k == "fillna":
         return f"fillna({s['v']!r}, subset={s['sub']})"
+    if k == "replace":
+        return f"replace({s['old']!r}, {s['new']!r}, subset={s['sub']})"
+    if k == "toDF":
+        return "toDF(" + ", ".join(map(repr, s["names"])) + ")"
+    if k == "dropna":
+        return f"dropna(how={'all' if s['howAll'] else 'any'!r}, thresh={s['thresh']}, subset={s['sub']})"
     return str(s)
 
 
@@ -250,6 +297,12 @@ def apply_step(df: t.Any, s: dict, F: t.Any) -> t.Any:
         return df.limit(s["n"])
     if k == "fillna":
         return df.fillna(s["v"], subset=s["sub"])
+    if k == "replace":
+        return df.replace(s["old"], s["new"], subset=s["sub"])
+    if k == "toDF":
+        return df.toDF(*s["names"])
+    if k == "dropna":
+        return df.dropna(how="all" if s["howAll"] else "any", thresh=s["thresh"], subset=s["sub"])
     raise ValueError(k)
 
 
@@ -287,6 +340,8 @@ def order_checked(c: dict) -> bool:
             schema = [s["b"] if x == s["a"] else x for x in schema]
         elif k == "drop":
             schema = [x for x in schema if x not in s["ns"]]
+        elif k == "toDF":
+            schema = list(s["names"])
     if len(steps[i]["keys"]) != len(schema):
         return False
     return all(s["k"] in ("limit",) for s in steps[i + 1 :])
@@ -348,6 +403,12 @@ def well_typed(c: dict) -> bool:
             want = "str" if isinstance(s["v"], str) else "int"
             if any(types.get(n) != want for n in s["sub"]):
                 return False
+        elif k == "replace":
+            want = "str" if isinstance(s["old"], str) else "int"
+            if any(types.get(n) != want for n in s["sub"]) or isinstance(s["new"], str) != isinstance(s["old"], str):
+                return False
+        elif k == "toDF":
+            types = {n: ty for n, ty in zip(s["names"], types.values())}
     return True
 
 
@@ -382,8 +443,17 @@ def valid(c: dict) -> bool:
         elif k == "orderBy":
             if not s["keys"] or not {x["name"] for x in s["keys"]} <= set(cols):
                 return False
-        elif k == "fillna":
+        elif k in ("fillna", "replace"):
             if not set(s["sub"]) <= set(cols):
+                return False
+        elif k == "toDF":
+            if len(s["names"]) != len(cols) or len(set(s["names"])) != len(s["names"]):
+                return False
+            cols = list(s["names"])
+        elif k == "dropna":
+            if not s["sub"] or not set(s["sub"]) <= set(cols) or "num_nulls" in cols:
+                return False
+            if s["thresh"] is not None and not (1 <= s["thresh"] <= len(s["sub"])):
                 return False
     return True
 
@@ -433,6 +503,8 @@ def has_risky_limit(c: dict) -> bool:
                 names = [s["b"] if x == s["a"] else x for x in names]
             elif k == "drop":
                 names = [x for x in names if x not in s["ns"]]
+            elif k == "toDF":
+                names = list(s["names"])
     return False
 
 
@@ -522,7 +594,7 @@ def run(ctx: Ctx) -> None:
     # classify implementation-vs-specification failures
     new_viol = []
     for r in spec_mismatch:
-        sc = r["scope"]
+        sc = [h for h in r["scope"] if h.startswith("H_")]  # D_* entries mark theorem coverage, not defects
         if sc and all(h in known for h in sc) and r["impl_eq_model"]:
             for h in sc:
                 vlib.report_known(ctx, known[h], known[h]["summary"])
